@@ -98,7 +98,7 @@ func HarnessSelfTestConc(a []int) {
 		var once sync.Once
 		var wg sync.WaitGroup
 		count, inits := 0, 0
-		for i := 0; i < 3; i++ {
+		for i := 0; i < 2; i++ {
 			wg.Add(1)
 			go func() {
 				defer wg.Done()
@@ -111,7 +111,7 @@ func HarnessSelfTestConc(a []int) {
 		wg.Wait()
 		verifObserve("count", count)
 		verifObserve("inits", inits)
-		verifAssert("self.mutex_once", count == 3*x && inits == 1)
+		verifAssert("self.mutex_once", count == 2*x && inits == 1)
 	case 3: // panic in a deferred chain, recover returns the value, named result survives
 		f := func() (r int) {
 			defer func() {
